@@ -45,22 +45,23 @@ PROVED
 5. heteroscedastic classes (`GT/Model/Hetero.lean`), stretch: `noiseOK_exp`, `noiseOK_cosh`
    (`_integrate_noise_diagonal` is `E_p[exp h_k]` resp. `E_p[cosh h_k − 1]`, Lebesgue integrals, any
    batch of `p(x)`); `C16_hetero_mean`, `C16_hetero_cross` (all link classes, any batch);
-   `C16_hetero_cov` (one-component `p(x)`; any link class satisfying `NoiseOK`, in particular exp and
-   cosh−1): `Sigma_y = ∫ (Σ_y(x) + μ(x)μ(x)ᵀ) p(x) dx − E[y]E[y]ᵀ` with
-   `Σ_y(x) = get_conditional_cov(x)`, `μ(x) = get_conditional_mu(x)` of the object itself;
+   `C16_hetero_cov` (any number `R` of components of `p(x)`, every component `r`; any link class
+   satisfying `NoiseOK`, in particular exp and cosh−1):
+   `Sigma_y[r] = ∫ (Σ_y(x) + μ(x)μ(x)ᵀ) p_r(x) dx − E_r[y]E_r[y]ᵀ` with
+   `Σ_y(x) = get_conditional_cov(x)`, `μ(x) = get_conditional_mu(x)` of the object itself
+   (`integrate_Sigma_x` returns one expected covariance per component, `[R, Dy, Dy]`);
    `C16_hetero_marginal_params`, `C16_hetero_joint_params`, `C16_hetero_conditional_params`
-   (covariance-form Gaussian conditional of the matched joint).
+   (covariance-form Gaussian conditional of the matched joint), all for arbitrary `R`.
 
 NOT PROVED HERE
 * Fubini: the identification of the iterated integrals above with integrals against the joint law of
   `(x, y)` on `ℝ^{Dx+Dy}` (only the iterated form `C16_tower_iterated` is proved).
-* Heteroscedastic classes: the covariance statement is for a one-component `p(x)` only (for `R > 1`
-  the code sums the expected noise over the components of `p(x)`, known finding
-  `hetero-batched-px`); `Cov[y|x]` is taken from `get_conditional_cov(x, invert=False)` — the
+* Heteroscedastic classes: `Cov[y|x]` is taken from `get_conditional_cov(x, invert=False)` — the
   `Lambda`/`ln det` that `condition_on_x` hands to the density constructor are consistent with it only
   under the Woodbury assumption (known finding `hetero-woodbury-Da>Dy`), so no analogue of
-  `C16_condition_on_x` is stated; the step / rectified-linear link classes are not in the model (they
-  are covered only through the hypothesis `NoiseOK`); positive definiteness of the matched
+  `C16_condition_on_x` is stated; the step / rectified-linear link classes
+  (`GT/Model/HeteroTrunc.lean`) are covered here only through the hypothesis `NoiseOK`, which
+  `GT/Props/C16Trunc.lean` establishes for them (`noiseOK_heaviside`, `noiseOK_relu`); positive definiteness of the matched
   heteroscedastic covariances and "conditional = `condition_on` of the joint" are not proved for them.
 * `conditional_entropy`, `mutual_information` and the log-conditional integrals are outside C16.
 -/
@@ -1410,7 +1411,7 @@ example (kernel : FeatKernel 1 2 ℝ) :
   · rw [hb]; simp [ofV]
   · rw [hmu]; simp [ofV]
 
-/-! ## 5. heteroscedastic classes (exp and cosh−1 links; covariance for a one-component `p(x)`) -/
+/-! ## 5. heteroscedastic classes (exp and cosh−1 links; any number of components of `p(x)`) -/
 
 section hetero
 variable {Da R : Nat}
@@ -1546,14 +1547,6 @@ theorem mkHetero_ok (M : Arr 1 (Mat Dy Dx ℝ)) (b : Arr 1 (Vec Dy ℝ)) (A : Ar
   simp only [mkHetero, tab_apply, mmul_apply, transpose_apply]
   exact Finset.sum_congr rfl fun l _ => mul_comm _ _
 
-theorem sum_fin_one_mul {K : Nat} (G : Fin (1 * K) → ℝ) :
-    ∑ j, G j = ∑ k : Fin K, G (flat (0 : Fin 1) k) := by
-  rw [← (finCongr (Nat.one_mul K).symm).sum_comp]
-  refine Finset.sum_congr rfl fun k _ => ?_
-  congr 1
-  apply Fin.ext
-  simp [flat]
-
 section hetMoments
 variable (hbe : be.Spec) {p : PdfV R Dx ℝ} (hp : PdfInv p) (c : HeteroB Dy Dx Da Dk ℝ)
   (ops : HLinkOps ℝ)
@@ -1613,36 +1606,35 @@ theorem hMomYY_eq (hN : NoiseOK ops be c p) (r : Fin R) (i j : Fin Dy) :
 end hetMoments
 
 section hetCovariance
-variable (hbe : be.Spec) {p : PdfV 1 Dx ℝ} (hp : PdfInv p) {c : HeteroB Dy Dx Da Dk ℝ}
+variable (hbe : be.Spec) {p : PdfV R Dx ℝ} (hp : PdfInv p) {c : HeteroB Dy Dx Da Dk ℝ}
   (hc : HetOK c) {ops : HLinkOps ℝ} (hN : NoiseOK ops be c p)
 include hbe hp hc hN
 
-/-- **covariance** (one-component `p(x)`, any link class whose `_integrate_noise_diagonal` is the
-expected link value): `Sigma_y = E[y yᵀ] − E[y] E[y]ᵀ` with
-`E[y yᵀ] = ∫ (Σ_y(x) + μ(x) μ(x)ᵀ) p(x) dx`, `Σ_y(x) = get_conditional_cov(x)` -/
-theorem C16_hetero_cov (i j : Fin Dy) :
-    (c.getExpectedMoments ops be p).2 0 i j
-      = hMomYY c ops p 0 i j - hMeanY c p 0 i * hMeanY c p 0 j := by
-  have hmu : ∀ i, c.condMu p.mu 0 i = hMeanY c p 0 i := fun i => C16_hetero_mean hbe hp c ops 0 i
+/-- **covariance** (any number `R` of components of `p(x)`, component `r`; any link class whose
+`_integrate_noise_diagonal` is the expected link value): `Sigma_y = E[y yᵀ] − E[y] E[y]ᵀ` with
+`E[y yᵀ] = ∫ (Σ_y(x) + μ(x) μ(x)ᵀ) p_r(x) dx`, `Σ_y(x) = get_conditional_cov(x)` -/
+theorem C16_hetero_cov (r : Fin R) (i j : Fin Dy) :
+    (c.getExpectedMoments ops be p).2 r i j
+      = hMomYY c ops p r i j - hMeanY c p r i * hMeanY c p r j := by
+  have hmu : ∀ i, c.condMu p.mu r i = hMeanY c p r i := fun i => C16_hetero_mean hbe hp c ops r i
   have hQ : ∀ i j, ((p.toMeasure.intView be).2.integrateQuadOuter
-      (c.meanForm : AffForm 1 Dy Dx ℝ) (c.meanForm : AffForm 1 Dy Dx ℝ)) 0 i j
-      = ∫ x, hetMu c i x * hetMu c j x * wgt p 0 x := by
+      (c.meanForm : AffForm R Dy Dx ℝ) (c.meanForm : AffForm R Dy Dx ℝ)) r i j
+      = ∫ x, hetMu c i x * hetMu c j x * wgt p r x := by
     intro i j
     rw [C03.C03_quad_outer hbe hp.inv]
     simp only [HeteroB.meanForm, tab_apply, ← hetMu_eq, wgt, PdfV.evalLn]
-  have hS : ∀ i l, (∑ j' : Fin (1 * Dk), c.Ak i (unflatR j')
-        * ops.integrateNoiseDiagonal be c p j' * c.Ak l (unflatR j'))
-      = ∑ k, c.Ak i k * c.Ak l k * ∫ x, ops.linkFunction (hLin c k x) * wgt p 0 x := by
+  have hS : ∀ i l, (∑ k : Fin Dk, c.Ak i k
+        * ops.integrateNoiseDiagonal be c p (flat r k) * c.Ak l k)
+      = ∑ k, c.Ak i k * c.Ak l k * ∫ x, ops.linkFunction (hLin c k x) * wgt p r x := by
     intro i l
-    rw [sum_fin_one_mul]
     refine Finset.sum_congr rfl fun k _ => ?_
-    rw [unflatR_flat, (hN 0 k).2]
+    rw [(hN r k).2]
     ring
-  have hsymQ : ∀ i j, ∫ x, hetMu c i x * hetMu c j x * wgt p 0 x
-      = ∫ x, hetMu c j x * hetMu c i x * wgt p 0 x := fun i j =>
+  have hsymQ : ∀ i j, ∫ x, hetMu c i x * hetMu c j x * wgt p r x
+      = ∫ x, hetMu c j x * hetMu c i x * wgt p r x := fun i j =>
     integral_congr_ae (Filter.Eventually.of_forall fun x => by ring)
-  have hsymS : ∀ i l, ∑ k, c.Ak i k * c.Ak l k * ∫ x, ops.linkFunction (hLin c k x) * wgt p 0 x
-      = ∑ k, c.Ak l k * c.Ak i k * ∫ x, ops.linkFunction (hLin c k x) * wgt p 0 x := fun i l =>
+  have hsymS : ∀ i l, ∑ k, c.Ak i k * c.Ak l k * ∫ x, ops.linkFunction (hLin c k x) * wgt p r x
+      = ∑ k, c.Ak l k * c.Ak i k * ∫ x, ops.linkFunction (hLin c k x) * wgt p r x := fun i l =>
     Finset.sum_congr rfl fun k _ => by ring
   rw [hMomYY_eq hbe hp hN]
   simp only [HeteroB.getExpectedMoments, HeteroB.integrateSigmaX, tab_apply, half_real, vsum_real,
@@ -1651,12 +1643,12 @@ theorem C16_hetero_cov (i j : Fin Dy) :
   ring
 
 /-- the matched moments as arrays -/
-noncomputable def hMeanYA (c : HeteroB Dy Dx Da Dk ℝ) (p : PdfV 1 Dx ℝ) : Arr 1 (Vec Dy ℝ) :=
+noncomputable def hMeanYA (c : HeteroB Dy Dx Da Dk ℝ) (p : PdfV R Dx ℝ) : Arr R (Vec Dy ℝ) :=
   tab2 fun r i => hMeanY c p r i
-noncomputable def hCovYA (c : HeteroB Dy Dx Da Dk ℝ) (ops : HLinkOps ℝ) (p : PdfV 1 Dx ℝ) :
-    Arr 1 (Mat Dy Dy ℝ) :=
+noncomputable def hCovYA (c : HeteroB Dy Dx Da Dk ℝ) (ops : HLinkOps ℝ) (p : PdfV R Dx ℝ) :
+    Arr R (Mat Dy Dy ℝ) :=
   tab3 fun r i j => hMomYY c ops p r i j - hMeanY c p r i * hMeanY c p r j
-noncomputable def hCovYXA (c : HeteroB Dy Dx Da Dk ℝ) (p : PdfV 1 Dx ℝ) : Arr 1 (Mat Dy Dx ℝ) :=
+noncomputable def hCovYXA (c : HeteroB Dy Dx Da Dk ℝ) (p : PdfV R Dx ℝ) : Arr R (Mat Dy Dx ℝ) :=
   tab3 fun r i j => hMomYX c p r i j - hMeanY c p r i * meanX p r j
 
 omit hc hN in
@@ -1665,9 +1657,8 @@ theorem het_fst_eq : (c.getExpectedMoments ops be p).1 = hMeanYA c p := by
 
 theorem het_snd_eq : (c.getExpectedMoments ops be p).2 = hCovYA c ops p := by
   ext r i j
-  obtain rfl : r = 0 := Subsingleton.elim _ _
   simp only [hCovYA, tab_apply]
-  exact C16_hetero_cov hbe hp hc hN i j
+  exact C16_hetero_cov hbe hp hc hN r i j
 
 omit hc hN in
 theorem het_covYX_eq :
@@ -1676,14 +1667,14 @@ theorem het_covYX_eq :
   simp only [HeteroB.covYX, hCovYXA, tab_apply, C16_hetero_cross hbe hp c, C16_hetero_mean hbe hp c ops,
     C16_mean_x hbe hp]
 
-/-- **marginal transformation** of the heteroscedastic classes -/
+/-- **marginal transformation** of the heteroscedastic classes (any number of components of `p(x)`) -/
 theorem C16_hetero_marginal_params :
     c.affineMarginal ops be p = mkPdf be false (hCovYA c ops p) (hMeanYA c p) none none := by
   have h : c.affineMarginal ops be p = mkPdf be false (c.getExpectedMoments ops be p).2
       (c.getExpectedMoments ops be p).1 none none := rfl
   rw [h, het_fst_eq hbe hp, het_snd_eq hbe hp hc hN]
 
-/-- **joint transformation** of the heteroscedastic classes -/
+/-- **joint transformation** of the heteroscedastic classes (any number of components of `p(x)`) -/
 theorem C16_hetero_joint_params :
     c.affineJoint ops be p = mkPdf be false
       (tab fun r => block (covXA p r) (transpose (hCovYXA c p r)) (hCovYXA c p r) (hCovYA c ops p r))
@@ -1697,23 +1688,23 @@ theorem C16_hetero_joint_params :
   rw [h, het_covYX_eq hbe hp, het_fst_eq hbe hp, het_snd_eq hbe hp hc hN,
     ← mu_eq hbe hp, ← Sigma_eq hbe hp]
 
-/-- **conditional transformation** of the heteroscedastic classes: the Gaussian conditional of the
-matched joint in covariance form, `M = Cov(y,x)ᵀ Cov(y)⁻¹`, `b = E[x] − M E[y]`,
-`Σ = Cov(x) − M Cov(y,x)` -/
+/-- **conditional transformation** of the heteroscedastic classes (any number of components of
+`p(x)`): the Gaussian conditional of the matched joint in covariance form,
+`M = Cov(y,x)ᵀ Cov(y)⁻¹`, `b = E[x] − M E[y]`, `Σ = Cov(x) − M Cov(y,x)` -/
 theorem C16_hetero_conditional_params :
     c.affineConditional ops be p =
-      (let Mn : Arr 1 (Mat Dx Dy ℝ) := tab fun r =>
+      (let Mn : Arr R (Mat Dx Dy ℝ) := tab fun r =>
          mmul (transpose (hCovYXA c p r)) ((invertBatch be false (hCovYA c ops p)).1 r)
-       let bn : Arr 1 (Vec Dx ℝ) := tab fun r => vsub (meanXA p r) (mulVec (Mn r) (hMeanYA c p r))
-       let Sn : Arr 1 (Mat Dx Dx ℝ) := tab fun r => msub (covXA p r) (mmul (Mn r) (hCovYXA c p r))
+       let bn : Arr R (Vec Dx ℝ) := tab fun r => vsub (meanXA p r) (mulVec (Mn r) (hMeanYA c p r))
+       let Sn : Arr R (Mat Dx Dx ℝ) := tab fun r => msub (covXA p r) (mmul (Mn r) (hCovYXA c p r))
        some ⟨false, Mn, bn, Sn, (invertBatch be false Sn).1, (invertBatch be false Sn).2⟩) := by
   have h : c.affineConditional ops be p =
       (let muY := (c.getExpectedMoments ops be p).1
        let cov := HeteroB.covYX (c.getExpectedCrossTerms be p) muY p
-       let Mn : Arr 1 (Mat Dx Dy ℝ) := tab fun r =>
+       let Mn : Arr R (Mat Dx Dy ℝ) := tab fun r =>
          mmul (transpose (cov r)) ((invertBatch be false (c.getExpectedMoments ops be p).2).1 r)
-       let bn : Arr 1 (Vec Dx ℝ) := tab fun r => vsub (p.mu r) (mulVec (Mn r) (muY r))
-       let Sn : Arr 1 (Mat Dx Dx ℝ) := tab fun r => msub (p.Sigma r) (mmul (Mn r) (cov r))
+       let bn : Arr R (Vec Dx ℝ) := tab fun r => vsub (p.mu r) (mulVec (Mn r) (muY r))
+       let Sn : Arr R (Mat Dx Dx ℝ) := tab fun r => msub (p.Sigma r) (mmul (Mn r) (cov r))
        some ⟨false, Mn, bn, Sn, (invertBatch be false Sn).1, (invertBatch be false Sn).2⟩) := rfl
   rw [h]
   simp only [het_covYX_eq hbe hp]
@@ -1723,32 +1714,37 @@ theorem C16_hetero_conditional_params :
 end hetCovariance
 
 /-- non-vacuity for the heteroscedastic part: both link classes, a concrete object built by the
-constructor, `p(x) = N((1,−1), [[2,1],[1,2]])` -/
-example : ∃ (c : HeteroB 2 2 2 1 ℝ) (p : PdfV 1 2 ℝ), Backend.sat.Spec ∧ HetOK c ∧ PdfInv p ∧
-    c.A 0 0 1 = 1 ∧ NoiseOK expOps Backend.sat c p ∧ NoiseOK coshM1Ops Backend.sat c p ∧
-    (∀ i j, (c.getExpectedMoments expOps Backend.sat p).2 0 i j
-      = hMomYY c expOps p 0 i j - hMeanY c p 0 i * hMeanY c p 0 j) ∧
-    (∀ i j, (c.getExpectedMoments coshM1Ops Backend.sat p).2 0 i j
-      = hMomYY c coshM1Ops p 0 i j - hMeanY c p 0 i * hMeanY c p 0 j) ∧
+constructor, a **two-component** `p(x)` with components `N((1,−1), [[2,1],[1,2]])` and
+`N((0,2), [[2,1],[1,2]])`; the covariance statement holds for both components -/
+example : ∃ (c : HeteroB 2 2 2 1 ℝ) (p : PdfV 2 2 ℝ), Backend.sat.Spec ∧ HetOK c ∧ PdfInv p ∧
+    c.A 0 0 1 = 1 ∧ p.mu 0 0 = 1 ∧ p.mu 1 0 = 0 ∧
+    NoiseOK expOps Backend.sat c p ∧ NoiseOK coshM1Ops Backend.sat c p ∧
+    (∀ r i j, (c.getExpectedMoments expOps Backend.sat p).2 r i j
+      = hMomYY c expOps p r i j - hMeanY c p r i * hMeanY c p r j) ∧
+    (∀ r i j, (c.getExpectedMoments coshM1Ops Backend.sat p).2 r i j
+      = hMomYY c coshM1Ops p r i j - hMeanY c p r i * hMeanY c p r j) ∧
     c.affineMarginal expOps Backend.sat p
       = mkPdf Backend.sat false (hCovYA c expOps p) (hMeanYA c p) none none := by
   have hbe := Backend.sat_spec
-  have hS : ∀ r : Fin 1, (toM ((tab fun _ : Fin 1 => ofM !![2, 1; 1, 2]) r)).PosDef := fun r => by
+  have hS : ∀ r : Fin 2, (toM ((tab fun _ : Fin 2 => ofM !![2, 1; 1, 2]) r)).PosDef := fun r => by
     simp only [tab_apply, toM_ofM]; exact posDef_two_one
-  have hargs : C02.PdfArgsOK false (tab fun _ : Fin 1 => ofM !![2, 1; 1, 2]) none none :=
+  have hargs : C02.PdfArgsOK false (tab fun _ : Fin 2 => ofM !![2, 1; 1, 2]) none none :=
     ⟨hS, by simp, by simp, by simp⟩
-  obtain ⟨p, hp⟩ := mkPdf_asPdf_isSome Backend.sat false (tab fun _ : Fin 1 => ofM !![2, 1; 1, 2])
-    (tab fun _ => ofV ![1, -1]) none none
+  obtain ⟨p, hp⟩ := mkPdf_asPdf_isSome Backend.sat false (tab fun _ : Fin 2 => ofM !![2, 1; 1, 2])
+    (tab fun r => if r = 0 then ofV ![1, -1] else ofV ![0, 2]) none none
   have hpi : PdfInv p := pdfInv_of_mkPdf hbe _ _ _ _ _ hargs hp
+  obtain ⟨-, hmu⟩ := mkPdf_asPdf_sigma_mu Backend.sat _ _ _ _ _ hp
   let c : HeteroB 2 2 2 1 ℝ := mkHetero Backend.sat (tab fun _ => ofM !![1, 2; 0, -1])
     (tab fun _ => ofV ![1, 2]) (tab fun _ => ofM !![2, 1; 0, 1]) (tab fun _ => ofV ![1, 2, -1])
     (le_refl _) (by norm_num)
   have hc : HetOK c := mkHetero_ok _ _ _ _ _ _
   have h1 := noiseOK_exp hbe hpi c
   have h2 := noiseOK_cosh hbe hpi c
-  refine ⟨c, p, hbe, hc, hpi, ?_, h1, h2, fun i j => C16_hetero_cov hbe hpi hc h1 i j,
-    fun i j => C16_hetero_cov hbe hpi hc h2 i j, C16_hetero_marginal_params hbe hpi hc h1⟩
-  simp [c, mkHetero, ofM]
+  refine ⟨c, p, hbe, hc, hpi, ?_, ?_, ?_, h1, h2, fun r i j => C16_hetero_cov hbe hpi hc h1 r i j,
+    fun r i j => C16_hetero_cov hbe hpi hc h2 r i j, C16_hetero_marginal_params hbe hpi hc h1⟩
+  · simp [c, mkHetero, ofM]
+  · rw [hmu]; simp [ofV]
+  · rw [hmu]; simp [ofV]
 
 end hetero
 
